@@ -122,6 +122,17 @@ func (fr *Frame) callFunc(st *State, f *ssa.Function, args []*Term, binds []*Ter
 		return fr.inline(st, f, args, binds, in)
 	}
 	ws := eng.frames.of(f, c)
+	if ct != nil && len(ct.keeps) > 0 {
+		w2 := map[string]bool{}
+		for k := range ws {
+			w2[k] = true
+		}
+		for _, k := range ct.keeps {
+			delete(w2, k)
+		}
+		ws = w2
+		fc.trusted[ct.pkgPath+"::"+ct.key+" (keeps "+strings.Join(ct.keeps, ",")+")"] = true
+	}
 	return fr.opaqueCall(st, f.Signature, ws, f.String(), in)
 }
 
@@ -464,6 +475,16 @@ func (fr *Frame) havocLoc(st *State, env *Env, e Expr, elems bool, item string) 
 			st.heap["lock"] = Store(h, t, fc.fresh("assign.lock", SInt))
 			return
 		}
+		if x.Fun == "atomicfield" {
+			sel := x.Args[0].(*ESel)
+			bt, bty := env.eval(sel.X)
+			pt := bty.Underlying().(*types.Pointer)
+			idx, _ := findField(pt.Elem().Underlying().(*types.Struct), sel.Name)
+			cls := "A:" + fieldClass(pt.Elem(), idx)
+			h := fc.get(st, cls, SArr(SRef, SIface))
+			st.heap[cls] = Store(h, bt, fc.fresh("assign.atomic", SIface))
+			return
+		}
 		efail("assigns %s: unsupported", item)
 	default:
 		efail("assigns %s: unsupported form", item)
@@ -593,6 +614,19 @@ func (eng *Engine) assignClasses(f *ssa.Function, ct *Contract, ws map[string]bo
 			}
 			if x.Fun == "lockdepth" {
 				ws["lock"] = true
+			}
+			if x.Fun == "atomicfield" {
+				if sel, ok := x.Args[0].(*ESel); ok {
+					if bt := typeOf(sel.X); bt != nil {
+						if p, ok := bt.Underlying().(*types.Pointer); ok {
+							if sst, ok := p.Elem().Underlying().(*types.Struct); ok {
+								if i, _ := findField(sst, sel.Name); i >= 0 {
+									ws["A:"+fieldClass(p.Elem(), i)] = true
+								}
+							}
+						}
+					}
+				}
 			}
 		}
 	}
